@@ -37,6 +37,9 @@ pub fn try_mount(img: &Image, strict: bool, want_total: bool) -> MountOutcome {
             fatfs::FatType::Fat32 => 32,
         };
         let cs = fs.cluster_size();
+        // the statistics query is not the call under test: it may legitimately scan the whole table
+        dev.begin_call();
+        dev.set_budget(Some(8_000_000));
         let total = if want_total { fs.stats().ok().map(|s| s.total_clusters()) } else { None };
         drop(fs);
         Ok((ft, cs, total))
